@@ -489,6 +489,32 @@ def _signedness_rule(chk, prog, tu):
     chk.floor(rule, 4, n)
 
 
+def _modexact_rule(chk):
+    """The floored modulo of two doubles has an exact answer, and libm's fmod / remainder / remquo deliver it.  The
+    textbook form x - y * floor(x / y) does not: once x / y passes 2^53 the product is rounded and the difference can
+    come out negative for a positive divisor, or as large as the divisor itself."""
+    from jv.vm import VMHandlers
+    rule = "C14-MODEXACT"
+    chk.rule(rule, "the number path of the modulo instruction takes its result from an exact libm remainder, not from x - y * floor(x / y)")
+    full = Program.load("default", units=["vm.c"])
+    vm = VMHandlers(full)
+    nodes = [x for x in vm.fn.nodes if vm.handler_of(x) == "label_JOP_MODULO"]
+    if not nodes:
+        raise AnalysisBroken("run_vm: handler of JOP_MODULO not found")
+    chk.instance(rule)
+    exact = [x for x in nodes if x.k == "call" and x.callee in ("fmod", "remainder", "remquo", "fmodl", "fmodf")]
+    inexact = [x for x in nodes if x.k == "bin" and x.op == "*" and any(c.k == "call" and c.callee in ("floor", "trunc", "round") for c in x.walk())]
+    if inexact:
+        chk.violation(rule, "vm.c", "run_vm", "MODULO:product-of-floor", inexact[0].loc,
+                      "JOP_MODULO forms `%s`: for quotients beyond 2^53 the product is rounded, so (mod 18014398509481982 3) is -2 and "
+                      "(mod 3.7208134616985e16 663) is 664 - outside [0, divisor)" % inexact[0].text()[:50])
+    elif not exact:
+        chk.violation(rule, "vm.c", "run_vm", "MODULO:no-exact-remainder", nodes[0].loc,
+                      "JOP_MODULO no longer derives the number result from fmod / remainder / remquo")
+    else:
+        chk.ok(rule, "JOP_MODULO: number result from `%s` with sign correction" % exact[0].text()[:30])
+
+
 def _unsignedwrap_rule(chk):
     """brushift works on uint32: its result can be any value up to 2^32 - 1 and must be boxed as that number.  Boxing
     it through a 32-bit signed conversion (janet_wrap_integer) turns results with bit 31 set into negative numbers."""
@@ -531,6 +557,7 @@ def run(chk):
     _lossy_rule(chk, tu)
     _signedness_rule(chk, prog, tu)
     _unsignedwrap_rule(chk)
+    _modexact_rule(chk)
     chk.floor("C14-DIV", 8)
     chk.floor("C14-WRAP", 10)
     chk.floor("C14-METHODS", 40)
